@@ -17,6 +17,7 @@ DECIDED = ("R1 the per-square castling-right masks equal their definition for al
            "file exactly on a non-promoting pawn double step; the half-move clock is 0 on a capture or pawn move and old+1 otherwise; the full-move number grows by 1 exactly "
            "after Black; R6 the checked operations call the unchecked one only under is_legal(mv) of the same board and move, and on refusal store nothing and return false/None.")
 DECIDED = DECIDED + " R1/R2 also: the castling rights of the successor are read off the final value of the field - the mover's rights and-ed with exactly the masks (opponent, dest) and (mover, source) - whatever helper did it (`&mut self` method, by-value method returning Self, code in place); every function that reads the per-square mask table computes rights & MASK[colour][square]."
+DECIDED = DECIDED + ' R7 PromotionPiece::to_piece and From<PromotionPiece> for Piece map every variant to the Piece of the same name (evaluated on the four variants; match or table form).'
 NOT_DECIDED = ("that the xor arithmetic on concrete boards yields the prescribed placement for every legal move (the semantics of the toggles on real positions, e.g. that "
                "`mv_bb & PAWN_DOUBLE_MOVE[turn] == mv_bb` holds exactly for double steps, rests on C09's constants and on legality of the move); "
                "'accept exactly the legal moves' reduces to C01 through R6")
@@ -321,6 +322,31 @@ def r6(ctx):
                site=P.body(ck).get("def_span"), sample=sorted(flds))
     else:
         ctx.ob("is_legal compares all of the move", False, "is_legal has no membership closure")
+
+
+@rule("C02.R7", "the promotion piece placed is the one the move names: PromotionPiece -> Piece conversions evaluated on every variant")
+def r7(ctx):
+    """make-move places `promotion.to_piece()` (kept opaque in the path summary): the conversion - a match, a table lookup, anything - must map each
+    PromotionPiece to the Piece of the same name.  Perft cannot see a swapped pair (both under-promotions are always generated together)."""
+    P = ctx.P
+    PP, PC = "chess_bitboard::piece::PromotionPiece", "chess_bitboard::piece::Piece"
+    keys = [k for k in (PP + "::to_piece", f"<{PC} as core::convert::From<{PP}>>::from") if k in P.fns]
+    ctx.floor("promotion piece conversions", len(keys), 1)
+    eng = T.Engine(P)
+    for k in keys:
+        ctx.used_body(k)
+        lv = eng.tabulate(k, keep_panics=True)
+        prm = ("param", 0, P.body(k)["locals"][1].get("n", "a0"))
+        bad = []
+        for n, _ in P.enum_variants(PP):
+            try:
+                r = T.eval_table(eng, lv, {prm: ("adt", PP, n, ())})
+            except Exception as e:
+                r = ("unevaluable", type(e).__name__)
+            if r != ("adt", PC, n, ()):
+                bad.append((n, f"{T.short(k)}({n}) = {T.show(r) if isinstance(r, tuple) else r}, expected Piece::{n}"))
+        ctx.bulk(f"{T.short(k)[:60]} on every variant", len(P.enum_variants(PP)), bad, "a promotion piece is converted to a different piece",
+                 sample={"variants": [n for n, _ in P.enum_variants(PP)]})
 
 
 # ------------------------------------------------------------------ controls
